@@ -169,6 +169,11 @@ def generate_globals(lean_dir: str):
     out.append("/-- (number of width entries, rounded sum of the widths) of the entries of `FONT_METRICS`, in\n"
                "insertion order (aliases included) -/\n")
     out.append("def FONT_METRICS : List (Nat × Nat) := [" + ", ".join("(%d, %d)" % d for _, d in fm) + "]\n\n")
+    names = [n for n, _ in cs]
+    for dev in ("DeviceGray", "DeviceRGB", "DeviceCMYK"):
+        if dev not in names:
+            raise P.Untranslatable("pdfcolor.py: PREDEFINED_COLORSPACE has no " + dev + " (do_g / do_rg / do_k index it)")
+        out.append("/-- position of `%s` in `PREDEFINED_COLORSPACE` -/\ndef IDX_%s : Nat := %d\n\n" % (dev, dev.upper(), names.index(dev)))
     out.append("def STRICT : Bool := " + ("true" if strict_flag() else "false") + "\n\n")
     out.append("/-- defaults of `PDFTextState()`: " + ", ".join(TEXT_FIELDS) + " -/\n")
     out.append("def TEXTSTATE_DEFAULTS : Int × Int × Int × Int × Int × Int × Int := (" + ", ".join(str(v) for v in td) + ")\n\n")
